@@ -84,6 +84,8 @@ def make_panel(case):
     p.model = case['model']
     for k, v in case['flags'].items():
         setattr(p, k, v)
+    if case.get('force_ortho'):
+        p.force_orthotropic_laminate = True          # rarely used option: every route must see the same (orthotropic) laminate
     return p
 
 
